@@ -1,6 +1,7 @@
 package main
 
 import (
+	gomath "math"
 	"crypto/sha256"
 	"fmt"
 	"strings"
@@ -87,7 +88,8 @@ func runC19(e *Env) error {
 			e.Add(Case{Coq: fmt.Sprintf("CMinMax %d %d %d %d", a, b, mn, mx), Kind: "minmax", NonTrivial: a != b, JSON: map[string]interface{}{"fn": "MinU64/MaxU64", "a": fmt.Sprint(a), "b": fmt.Sprint(b), "min": fmt.Sprint(mn), "max": fmt.Sprint(mx)}})
 		}
 	}
-	// IntegerSquareRootPrysm (table + float64 estimate): judged against floor sqrt only (no Impl model of float64)
+	// IntegerSquareRootPrysm (table + float64 estimate + correction loops): the model takes the float64 estimate as an oracle,
+	// computed here with the same Go expression; the Spec side judges floor sqrt directly
 	prysm := append([]uint64{4, 16, 64, 256, 1024, 4096, 16384, 65536, 262144, 1048576, 4194304, 5, 15, 17, 4194303, 4194305,
 		4503599761588222, 4503599761588223, 4503599761588224, 4503599761588225, 4503599627370495, 4503599627370496}, vals...)
 	for i, n := range prysm {
@@ -95,7 +97,8 @@ func runC19(e *Env) error {
 			break
 		}
 		g := zmath.IntegerSquareRootPrysm(n)
-		e.Add(Case{Coq: fmt.Sprintf("CIsqrtPrysm %d %d", n, g), Kind: "isqrt_prysm", NonTrivial: nt(n), JSON: map[string]interface{}{"fn": "IntegerSquareRootPrysm", "n": fmt.Sprint(n), "go": fmt.Sprint(g)}})
+		est := uint64(gomath.Sqrt(float64(n)))
+		e.Add(Case{Coq: fmt.Sprintf("CIsqrtPrysm %d %d %d", n, est, g), Kind: "isqrt_prysm", NonTrivial: nt(n), JSON: map[string]interface{}{"fn": "IntegerSquareRootPrysm", "n": fmt.Sprint(n), "float_estimate": fmt.Sprint(est), "go": fmt.Sprint(g)}})
 	}
 	for _, n := range vals {
 		var res uint64
